@@ -8,6 +8,7 @@ import (
 	"os"
 	"path/filepath"
 	"strconv"
+	"strings"
 	"sync"
 	"syscall"
 	"time"
@@ -78,6 +79,7 @@ func mirrorE2EMain(args mon.Args) {
 				rmu.Unlock()
 			}
 		}()
+		cs0, rb0 := udpSnmp("InCsumErrors"), udpSnmp("RcvbufErrors")
 		bindV4 := pi%2 == 1
 		// the two protocols get their own maximum datagram size; in three of four processes they differ
 		sizes := [][2]int{{1500, 1500}, {512, 2048}, {2048, 512}, {1500, 9000}}[pi%4]
@@ -258,7 +260,14 @@ func mirrorE2EMain(args mon.Args) {
 				}
 			}
 		} else {
-			run.Inconclusive(fmt.Sprintf("%s: the kernel dropped %d datagrams; completeness not judged", desc, drops))
+			// why did the kernel drop them? A full receive buffer is the load's doing; a checksum failure at the mirror
+			// target's socket is the mirrored datagram's own defect (the target's stack discards it)
+			csNow, rbNow := udpSnmp("InCsumErrors"), udpSnmp("RcvbufErrors")
+			if mdrops := kernelDrops(map[int]bool{mport: true}); mdrops > 0 && csNow-cs0 >= mdrops && rbNow == rb0 {
+				run.Violation("e2e-mirror:bad-udp-checksum", fmt.Sprintf("%s: %d of %d mirrored datagrams were discarded by the receiving stack for a wrong UDP checksum (Udp InCsumErrors +%d, RcvbufErrors +0)", desc, mdrops, len(all), csNow-cs0), wit("checksum failures at the mirror target"))
+			} else {
+				run.Inconclusive(fmt.Sprintf("%s: the kernel dropped %d datagrams; completeness not judged", desc, drops))
+			}
 		}
 		if pi == 0 {
 			run.Sample(map[string]interface{}{"scenario": desc, "sent": len(all), "received_by_third_party": len(got)})
@@ -274,4 +283,30 @@ func mirrorE2EMain(args mon.Args) {
 	run.Set("datagrams_received_by_the_third_party_listener", totalRx)
 	run.SetRule("end-to-end tier: the real binary with mirroring of IPFIX and sFlow towards a UDP listener, sockets bound to the wildcard (exporter addresses reach the mirror in 16-byte form) or to 127.0.0.1 (4-byte form), max-udp-size 512/1500, exporters 127.x.y.z, payload lengths 0..max with the bands next to 0, 28, 256 and the maximum always included; each datagram must arrive exactly once, byte-identical, from the exporter's address. distinct = collector configuration")
 	run.Finish()
+}
+
+// udpSnmp reads one counter of the "Udp:" line of /proc/net/snmp.
+func udpSnmp(name string) int64 {
+	b, err := os.ReadFile("/proc/net/snmp")
+	if err != nil {
+		return 0
+	}
+	var hdr []string
+	for _, l := range strings.Split(string(b), "\n") {
+		f := strings.Fields(l)
+		if len(f) == 0 || f[0] != "Udp:" {
+			continue
+		}
+		if hdr == nil {
+			hdr = f
+			continue
+		}
+		for i := range hdr {
+			if hdr[i] == name && i < len(f) {
+				v, _ := strconv.ParseInt(f[i], 10, 64)
+				return v
+			}
+		}
+	}
+	return 0
 }
